@@ -79,7 +79,7 @@ var (
 		Text: "RET.1/FRAME.1: function bodies are compiled, then optimised/terminated, then captured; NumLocals/NumParameters/VarArgs/capture list come from the function's own table and signature before the scope is left; main ends in a never-fall-through opcode; optimizeFunc appends the final return"}
 	rOPT = &Rule{Name: "OPT", Floor: 5, Fn: ruleOPT,
 		Text: "OPT.1 offsets looked up in the old→new position map are used verbatim (jump operands, source-map keys), a jump to the old end maps to the new end; OPT.2 the map is filled with len(new) right before each instruction is appended; OPT.3 jump destinations end dead regions"}
-	rTAIL = &Rule{Name: "TAIL", Floor: 8, Fn: ruleTAIL,
+	rTAIL = &Rule{Name: "TAIL", Floor: 9, Fn: ruleTAIL,
 		Text: "TAIL.1 the frame-reuse predicate, evaluated over all opcode pairs, is true only when the call is followed by RET or POP;RET and always when followed by RET, with look-ahead offsets derived from the operand widths; TAIL.2 the reuse path is guarded by callee == running function, writes no frame state, copies arguments directly into the parameter slots, resets sp/ip, and precedes the frame push; TAIL.3 the compiler emits RET 1 right after a returned expression and nothing after the right operand of &&/||"}
 	rMOD = &Rule{Name: "MOD", Floor: 18, Fn: ruleMOD,
 		Text: "MOD.1 a module is compiled against NewSymbolTable()+builtins forked as a function scope, by a child compiler with nil constants/parent set, constants added at the root; MOD.2 the cyclic-import check is compileModule's first statement and walks the whole parent chain; MOD.3 cache lookup → parse → compile → store, at the root; MOD.4 source imports compile to CONST fn; CALL 0 0; MOD.5 file-system calls only under the allowFileImport flag (who-may-call), flag written only by EnableFileImport/fork, module map consulted first, Script default off"}
@@ -139,6 +139,12 @@ var (
 		Text: "every recursive component of the call graph on the scan/parse/compile path (recursion on input nesting depth with no limit: native stack exhaustion is fatal) is listed as a known finding - a new one is a violation"}
 	rSHARE = &Rule{Name: "SHARE", Floor: 4, Fn: ruleSHARE,
 		Text: "SHARE.1 in functions reachable from VM.Run (VTA call graph) no field of a clone-shared type (everything reachable from Bytecode: constants, compiled functions, file set) is stored to except on an object allocated in the same function; the two lazily filled caches are known findings; SHARE.2 no package-level variable of the core packages is written under Run"}
+	rIDX1 = &Rule{Name: "IDX.1", Floor: 4, Fn: ruleIDX1,
+		Text: "each indexable sequence type (Array, ImmutableArray, Bytes, String) indexes, bounds-checks and iterates over one and the same storage, so that index, length bound and iteration agree on the unit (elements, bytes, runes)"}
+	rFRESHVM = &Rule{Name: "FRESHVM", Floor: 3, Fn: ruleFRESHVM,
+		Text: "every Run/Abort in the methods of *Compiled acts on a VM made by NewVM in the same call, and Compiled holds no VM: no VM state (abort flag, stored error, stack, frames) survives from one run into the next"}
+	rNILFIELD = &Rule{Name: "NILFIELD", Floor: 4, Fn: ruleNILFIELD,
+		Text: "every AST pointer field that the compiler dereferences without a nil guard is definitely assigned (constructed, parsed, or assigned on every path from a nil declaration) at every node construction site in the parser"}
 )
 
 func allProperties() []*Property {
@@ -146,7 +152,7 @@ func allProperties() []*Property {
 		{ID: "C01",
 			Decided:    "compiler, generic codec, opcode tables and every VM arm agree byte for byte on the instruction format.",
 			NotDecided: "the language semantics themselves (values computed by operators, control flow, scoping, builtins).",
-			Rules:      []*Rule{rCODEC1, rCODEC2, rCODEC3, rFRESH, rOPARM, rOPDOC, rSEM}},
+			Rules:      []*Rule{rCODEC1, rCODEC2, rCODEC3, rFRESH, rOPARM, rOPDOC, rSEM, rIDX1, rTWIN1, rFAM1}},
 		{ID: "C02",
 			Decided:    "instruction format agreement; opcode-class agreement.",
 			NotDecided: "stack balance and jump well-formedness for all compiled programs.",
@@ -158,11 +164,11 @@ func allProperties() []*Property {
 		{ID: "C04",
 			Decided:    "every explicit panic reachable from the scan/parse/compile entry points is recovered in place, proven unreachable from re-checked premises, or a listed finding; scope switches are exhaustive; the globals slot count is checked; compiler scope/loop stacks are balanced on error paths; parser error positions are token/node start positions.",
 			NotDecided: "termination; implicit run-time panics in general (index, nil, slice bounds); that every reported position lies inside the input.",
-			Rules:      []*Rule{rPANIC1, rPANIC2, rPANIC3, rPANIC4, rSCOPE1, rJMP2, rNEWPARSER, rPOSARG}},
+			Rules:      []*Rule{rPANIC1, rPANIC2, rPANIC3, rPANIC4, rNILFIELD, rSCOPE1, rJMP2, rNEWPARSER, rPOSARG}},
 		{ID: "C05",
 			Decided:    "the structure that turns any ordinary panic of the VM goroutine into a returned error, waits for that goroutine, and releases the lock by defer on every exit.",
 			NotDecided: "which run-time faults a script can provoke; faults recover() cannot catch are only partly covered (thorough).",
-			Rules:      []*Rule{rREC, rLOCK, rFATAL1}},
+			Rules:      []*Rule{rREC, rLOCK, rFRESHVM, rFATAL1}},
 		{ID: "C06",
 			Decided:    "count-then-check at every allocation site with a count-down counter read only against zero; every object the VM creates is counted; every String/Bytes producer in package tengo is guarded or bounded by construction; formatter output grows only behind the limit check; frame pushes are guarded.",
 			NotDecided: "the numbers as run-time facts (exactly N allocations, results unchanged when N grows); allocation inside Go library calls; stdlib-module producers.",
@@ -174,7 +180,7 @@ func allProperties() []*Property {
 		{ID: "C08",
 			Decided:    "lock discipline of *Compiled; Copy is deep and fresh (what makes per-clone globals independent).",
 			NotDecided: "absence of data races over all interleavings; equality with the sequential baseline.",
-			Rules:      []*Rule{rLOCK, rCOPY1, rCLONE1, rSHARE}},
+			Rules:      []*Rule{rLOCK, rCOPY1, rCLONE1, rFRESHVM, rSHARE}},
 		{ID: "C09",
 			Decided:    "no route from the storage of an immutable array/map to a write or to a mutable owner, in any function of any package (ownership rule on two fields).",
 			NotDecided: "immutability broken by embedder code or unsafe/reflect (neither occurs in the tree).",
